@@ -13,8 +13,7 @@ import LopdfModel.Thm.C05
    (2) model_eq_spec: the model of lopdf's CODE (Model/Crypt.lean) equals the spec on the claimed
        domain: password padding, Algorithm 2 (for the P value the code uses), 3 (owner password
        present), 4, 5, per-object keys (Alg 1 / AESV2 salt), AES data encryption (Alg 1.A).
-   (3) where they do NOT agree, the deviation as a proved statement: `Perms` is stored unencrypted
-       (Alg 10), P is re-normalised before Algorithm 2, the owner password is never "absent",
+   (3) where they do NOT agree, the deviation as a proved statement: P is re-normalised before Algorithm 2, the owner password is never "absent",
        Algorithms 8 / 9 as coded do not truncate to 127 bytes.
 -/
 set_option linter.unusedSectionVars false
@@ -265,29 +264,80 @@ end model_eq_spec
 
 /-! ## (3) the deviations, as statements about the model of the code -/
 
-def r6Alg (em : Bool) : Alg :=
-  { encryptMetadata := em, length := none, version := 5, revision := 6, ownerValue := [], ownerEncrypted := [],
-    userValue := [], userEncrypted := [], permissions := PERM_ALL, permsEncrypted := [] }
+/-! Algorithms 10 and 13 (after the repair of F-C06-c, /repo ca6bb9d): model = spec -/
 
-/-- F-C06-c: `compute_permissions` returns the Algorithm-10 block WITHOUT encrypting it
-(`encrypt_block_mut(&mut bytes.into())` works on a temporary): what lopdf stores as `Perms` is the
-plaintext block; Algorithm 10 is the AES encryption of exactly that block. -/
-theorem perms_not_encrypted (P : Prims) (S : SPrims) (em : Bool) (key rnd : Bytes) :
-    (r6Alg em).computePerms P key rnd = permsBlock (pValue PERM_ALL % 4294967296) em rnd ∧
-    alg10 S (pValue PERM_ALL % 4294967296) em key rnd = S.aesEnc key ((r6Alg em).computePerms P key rnd) := by
-  have h : (r6Alg em).computePerms P key rnd = permsBlock (pValue PERM_ALL % 4294967296) em rnd := by
-    have e : PERMS_TAG = [0x61, 0x64, 0x62] := by decide
-    have l8 : leBytes 8 (pValue PERM_ALL) = le 4 (pValue PERM_ALL % 4294967296) ++ [0xFF, 0xFF, 0xFF, 0xFF] := by decide
-    cases em <;> simp [Alg.computePerms, permsBlock, r6Alg, e, l8]
-  exact ⟨h, by rw [h]; rfl⟩
+theorem leBytes_mod (k n : Nat) : leBytes k (n % 256 ^ k) = leBytes k n := by
+  induction k generalizing n with
+  | zero => rfl
+  | succ k ih =>
+    have e : (256 : Nat) ^ (k + 1) = 256 * 256 ^ k := by rw [Nat.pow_succ, Nat.mul_comm]
+    simp only [leBytes]
+    rw [e, Nat.mod_mul_right_div_self, ih, Nat.mod_mul_right_mod]
 
-/-- … and lopdf's own check accepts that plaintext block while Algorithm 13 applied to it fails for a
-cipher that changes its input (`toy`). -/
-theorem perms_check_on_plaintext :
-    errOf (({ r6Alg true with permsEncrypted := (r6Alg true).computePerms toy [] [1, 2, 3, 4] } : Alg).validatePerms toy []) = none ∧
-    alg13 { md5 := toy.md5, sha256 := toy.sha256, sha384 := toy.sha256, sha512 := toy.sha256, aesEnc := toy.aesEnc, aesDec := toy.aesDec, rc4 := Crypt.rc4 }
-      (pValue PERM_ALL % 4294967296) [] ((r6Alg true).computePerms toy [] [1, 2, 3, 4]) = false := by
-  constructor <;> decide +kernel
+theorem leBytes_append (j k n : Nat) : leBytes (j + k) n = leBytes j n ++ leBytes k (n / 256 ^ j) := by
+  induction j generalizing n with
+  | zero => simp [leBytes]
+  | succ j ih =>
+    have : j + 1 + k = (j + k) + 1 := by omega
+    rw [this]
+    simp only [leBytes, List.cons_append, ih]
+    rw [Nat.div_div_eq_div_mul, Nat.pow_succ, Nat.mul_comm]
+
+/-- the upper 32 bits of `p_value` are all ones for every permission word below 2^32 -/
+theorem pValue_high (perms : Nat) (h : perms < 4294967296) : pValue perms / 4294967296 = 4294967295 := by
+  unfold pValue
+  have e : (4294967296 : Nat) = 2 ^ 32 := by decide
+  rw [e, ← Nat.shiftRight_eq_div_pow, Nat.shiftRight_or_distrib, Nat.shiftRight_eq_div_pow, Nat.shiftRight_eq_div_pow]
+  have h0 : perms / 2 ^ 32 = 0 := Nat.div_eq_of_lt (by rw [← e]; exact h)
+  have h1 : P_RESERVED / 2 ^ 32 = 4294967295 := by decide
+  rw [h0, h1]; simp
+
+/-- the block `compute_permissions` encrypts = the block of Algorithm 10 -/
+theorem permsPlain_eq_permsBlock (a : Alg) (rnd : Bytes) (hp : a.permissions < 4294967296) :
+    a.permsPlain rnd = permsBlock (pValue a.permissions % 4294967296) a.encryptMetadata rnd := by
+  have e : PERMS_TAG = [0x61, 0x64, 0x62] := by decide
+  have e256 : (4294967296 : Nat) = 256 ^ 4 := by decide
+  have l8 : leBytes 8 (pValue a.permissions) = le 4 (pValue a.permissions % 4294967296) ++ [0xFF, 0xFF, 0xFF, 0xFF] := by
+    rw [show (8 : Nat) = 4 + 4 from rfl, leBytes_append, ← e256, pValue_high _ hp, ← leBytes_eq, e256, leBytes_mod]
+    have : leBytes 4 4294967295 = [0xFF, 0xFF, 0xFF, 0xFF] := by decide
+    rw [this]
+  unfold Alg.permsPlain permsBlock
+  rw [l8, e]
+
+/-- model_eq_spec, Algorithm 10: `compute_permissions` as coded = Algorithm 10 (every permission
+word below 2^32, every key, every random tail) -/
+theorem computePerms_eq_alg10 (P : Prims) (S : SPrims) (haesE : S.aesEnc = P.aesEnc) (a : Alg) (key rnd : Bytes)
+    (hp : a.permissions < 4294967296) :
+    a.computePerms P key rnd = alg10 S (pValue a.permissions % 4294967296) a.encryptMetadata key rnd := by
+  unfold Alg.computePerms alg10
+  rw [permsPlain_eq_permsBlock a rnd hp, haesE]
+
+/-- model_eq_spec, Algorithm 13: `validate_permissions` as coded accepts the Perms value of the
+standard's Algorithm 10 (for the document's own P and EncryptMetadata) under the AES hypothesis -/
+theorem validatePerms_accepts_alg10 (P : Prims) (S : SPrims) (haesE : S.aesEnc = P.aesEnc) (key : Bytes)
+    (hk : BlockOK P key) (a : Alg) (rnd : Bytes) (hr : rnd.length ≥ 4) (hp : a.permissions < 4294967296)
+    (hperms : a.permsEncrypted = alg10 S (pValue a.permissions % 4294967296) a.encryptMetadata key rnd) :
+    a.validatePerms P key = .ok () := by
+  have e : PERMS_TAG = [0x61, 0x64, 0x62] := by decide
+  have hb : (a.permsPlain rnd).length = 16 := by
+    have : (leBytes 8 (pValue a.permissions)).length = 8 := by rw [leBytes_eq, le_length]
+    simp [Alg.permsPlain, this, e]; omega
+  unfold Alg.validatePerms
+  rw [hperms, alg10, ← permsPlain_eq_permsBlock a rnd hp, haesE, hk.dec_enc _ hb]
+  have s1 : slice (a.permsPlain rnd) 9 3 = PERMS_TAG := by
+    simp [Alg.permsPlain, slice, leBytes, e]
+  have s2 : (a.permsPlain rnd).take 3 = (leBytes 8 (pValue a.permissions)).take 3 := by
+    simp [Alg.permsPlain, leBytes]
+  have s3 : slice (a.permsPlain rnd) 8 1 = [if a.encryptMetadata then 84 else 70] := by
+    simp [Alg.permsPlain, slice, leBytes, e]
+  simp [s1, s2, s3]
+
+/-- non-vacuity: all permissions, EncryptMetadata = true, in the witness instance of the primitives -/
+def permsAlg : Alg :=
+  { encryptMetadata := true, length := none, version := 5, revision := 6, ownerValue := [], ownerEncrypted := [],
+    userValue := [], userEncrypted := [], permissions := PERM_ALL,
+    permsEncrypted := toy.aesEnc [] (permsBlock (pValue PERM_ALL % 4294967296) true [1, 2, 3, 4]) }
+example : errOf (permsAlg.validatePerms toy []) = none := by decide +kernel
 
 /-- F-C06-f: Algorithm 2 is fed `p_value(from_bits_truncate(P))`, not the stored P: for the
 (non-conforming but common) P = −1 the code hashes FFFFFFFC instead of FFFFFFFF. -/
